@@ -154,6 +154,72 @@ func genC17(kind string) func(r *core.Rng) any {
 	}
 }
 
+// genC17Paragraph builds plain paragraphs of many words with one fine-grained glue setting and a
+// measure of three to six lines: several break sequences with nearly equal demerits and different
+// fitness classes compete, which is where the pruning of active nodes decides optimality.
+func genC17Paragraph(r *core.Rng) any { return genC17Para(r, false) }
+func genC17Long(r *core.Rng) any      { return genC17Para(r, true) }
+
+func genC17Para(r *core.Rng, long bool) any {
+	for {
+		var items []c17Item
+		integer := r.Bool()
+		w := r.Range(3, 8)
+		y, z := w*r.Range(0.5, 1.2), w*r.Range(0.2, 0.5)
+		if long {
+			y = w * r.Range(0.7, 1.6)
+		}
+		if integer {
+			w, y, z = math.Round(w), math.Max(1, math.Round(y)), math.Max(1, math.Round(z))
+		}
+		words := r.IntRange(7, 15)
+		if long {
+			words = r.IntRange(16, 45)
+		}
+		items = append(items, c17Item{K: 0, W: 0})
+		total := 0.0
+		for wd := 0; wd < words; wd++ {
+			bw := r.Range(5, 40)
+			if integer {
+				bw = math.Round(bw)
+			}
+			if r.Chance(0.1) { // hyphenation point
+				items = append(items, c17Item{K: 0, W: bw / 2}, c17Item{K: 2, W: 2, P: 50, F: true}, c17Item{K: 0, W: bw / 2})
+			} else {
+				items = append(items, c17Item{K: 0, W: bw})
+			}
+			total += bw
+			if wd < words-1 {
+				items = append(items, c17Item{K: 1, W: w, Y: y, Z: z})
+				total += w
+			}
+		}
+		items = append(items, c17Item{K: 1, W: 0, Y: kpInf, Z: 0}, c17Item{K: 2, W: 0, P: -kpInf, F: false})
+		c := &c17Case{Items: items, Kind: "paragraph"}
+		c.Width = total / r.Range(2.6, 6)
+		if long {
+			c.Kind = "long"
+			c.Width = total / r.Range(3, 8)
+		}
+		if integer {
+			c.Width = math.Round(c.Width)
+		}
+		if long {
+			return c
+		}
+		legal := 0
+		ref := c.ref()
+		for b := range ref {
+			if refkp.Legal(ref, b, kpParams()) {
+				legal++
+			}
+		}
+		if legal <= 17 {
+			return c
+		}
+	}
+}
+
 func c17Corpus() []any {
 	mk := func(width float64, its ...c17Item) any { return &c17Case{Items: its, Width: width, Kind: "corpus"} }
 	B := func(w float64) c17Item { return c17Item{K: 0, W: w} }
@@ -190,8 +256,25 @@ func c17Check(ci any, o *core.Obs) {
 			break
 		}
 	}
-	res := refkp.Search(ref, c.Width, p)
-	o.Count("breakings_enumerated", float64(res.Breakings))
+	var res refkp.Result
+	long := c.Kind == "long"
+	if long {
+		// too many breakpoints to enumerate: exact dynamic programme, feasible instances only
+		f, m := refkp.SearchDP(ref, c.Width, p)
+		res = refkp.Result{Feasible: f, MinDemerits: m}
+		o.Count("instances_decided_by_dynamic_programme", 1)
+	} else {
+		res = refkp.Search(ref, c.Width, p)
+		o.Count("breakings_enumerated", float64(res.Breakings))
+		// the two references must agree wherever both apply
+		f, m := refkp.SearchDP(ref, c.Width, p)
+		if f != res.Feasible || (f && math.Abs(m-res.MinDemerits) > 1e-9*(1+math.Abs(m))) {
+			o.Count("reference_self_check_failed", 1)
+			o.Skip(fmt.Sprintf("the enumeration (feasible %v, %.9g) and the dynamic programme (feasible %v, %.9g) disagree; %s", res.Feasible, res.MinDemerits, f, m, c17Str(c)))
+			return
+		}
+		o.Count("dynamic_programme_agrees_with_enumeration", 1)
+	}
 	o.NonTrivial()
 	// (1) structure of the returned breaking
 	var pos []int
@@ -259,6 +342,10 @@ func c17Check(ci any, o *core.Obs) {
 	// (3)-(5)
 	dem := refkp.Demerits(ref, pos, c.Width, p)
 	o.Decided(1)
+	if long && !res.Feasible {
+		o.Count("long_instances_without_feasible_breaking_not_decided", 1)
+		return
+	}
 	switch {
 	case res.Feasible:
 		o.Count("feasible_instances", 1)
@@ -268,7 +355,11 @@ func c17Check(ci any, o *core.Obs) {
 		if minR < -1-1e-9 || maxR > p.Tolerance+1e-9 {
 			o.Fail("infeasible-result", "a breaking with all ratios in [-1,%g] exists, but the returned %v has ratios in [%.6g,%.6g]; %s", p.Tolerance, pos, minR, maxR, c17Str(c))
 		} else if dem > res.MinDemerits+1e-9*math.Abs(res.MinDemerits)+1e-6 {
-			o.Fail("suboptimal", "returned breaking %v has demerits %.9g, the minimum over all %d breakings is %.9g; %s", pos, dem, res.Breakings, res.MinDemerits, c17Str(c))
+			how := fmt.Sprintf("the minimum over all %d breakings", res.Breakings)
+			if long {
+				how = "the minimum found by the dynamic programme"
+			}
+			o.Fail("suboptimal", "returned breaking %v has demerits %.9g, %s is %.9g; %s", pos, dem, how, res.MinDemerits, c17Str(c))
 		}
 	case res.Shrinkable:
 		o.Count("relaxed_instances", 1)
@@ -331,12 +422,15 @@ func init() {
 		Title:             "Line breaking returns a feasible, optimal Knuth-Plass solution",
 		StatesTermination: true,
 		Rule: "item sequences of 2-9 words (boxes incl. wider than the line, glue with zero/finite/infinite stretch and full shrink, consecutive glue, hyphen penalties 0/50/500/-50 flagged and unflagged, unbreakable spaces, forced breaks in the middle, the ragged-right glue-penalty-glue triples of GlyphsToItems) ending in the finishing glue and forced break, with at most 16 legal breakpoints, x widths from below the widest box to the whole paragraph; integer-valued variants; " +
-			"every legal breaking is enumerated (up to 65536) and evaluated from the paper's definitions: legality, forced breaks, completeness, reported Width/Ratio, feasibility, minimal demerits, minimal relaxation, overflow; every case non-trivial; distinct = distinct case hash",
+			"plain paragraphs of 7-15 words with one fine-grained glue setting and 3-6 lines; long paragraphs of 16-45 words and 4-12 lines, decided by an exact dynamic programme over (break, fitness class) for feasibility and minimal demerits only (the dynamic programme is cross-checked against the enumeration on every enumerated case); " +
+			"every legal breaking is enumerated (up to 131072) and evaluated from the paper's definitions: legality, forced breaks, completeness, reported Width/Ratio, feasibility, minimal demerits, minimal relaxation, overflow; every case non-trivial; distinct = distinct case hash",
 		Strata: []core.Stratum{
 			{Name: "justified", Quick: 3000, Thorough: 100000, Gen: genC17("justified")},
 			{Name: "ragged", Quick: 1500, Thorough: 50000, Gen: genC17("ragged")},
 			{Name: "mixed", Quick: 1500, Thorough: 50000, Gen: genC17("mixed"), WitnessOnly: true, Note: "justified and ragged-right (negative stretch) spaces mixed in one paragraph, which the library itself never emits: 3e-4 infeasible / over-relaxed / sub-optimal results"},
 			{Name: "grid", Quick: 1500, Thorough: 50000, Gen: genC17("grid")},
+			{Name: "paragraph", Quick: 8000, Thorough: 200000, Gen: genC17Paragraph},
+			{Name: "long", Quick: 60000, Thorough: 600000, Gen: genC17Long},
 		},
 		NewCase:  func() any { return &c17Case{} },
 		Corpus:   c17Corpus,
